@@ -183,6 +183,18 @@ func verifModel_proxy_verifTemplates() *template.Template { return nil }
 // getTemplates (html/template parsing) is replaced by nil under the executor.
 func verifModel_proxy_getTemplates() *template.Template { return nil }
 
+// verifEmailValidators builds fresh address/domain validators for a policy (the specification side).
+func verifEmailValidators(pol verifPolicy) []validators.Validator {
+	var v []validators.Validator
+	if len(pol.Addresses) != 0 {
+		v = append(v, validators.NewEmailAddressValidator(pol.Addresses))
+	}
+	if len(pol.Domains) != 0 {
+		v = append(v, validators.NewEmailDomainValidator(pol.Domains))
+	}
+	return v
+}
+
 func verifRegex(i int) *regexp.Regexp {
 	switch i {
 	case 0:
